@@ -310,8 +310,13 @@ func runCheck(id, tier, repo, verif string, writeEvidence bool) int {
 		}
 		t0 := time.Now()
 		failed, out := P.runGoTests(execFiles, tmp)
+		sections := lastGoTestSections
 		for name := range execFiles {
 			f, ran := failed[name]
+			detail := truncate(out, 3000)
+			if sec, ok := sections[name]; ok {
+				detail = "test body: " + execFiles[name] + "\n\n" + truncate(sec, 6000)
+			}
 			kind := "executed"
 			if strings.HasPrefix(name, "executed/bounded_") {
 				kind = "bounded"
@@ -321,7 +326,7 @@ func runCheck(id, tier, repo, verif string, writeEvidence bool) int {
 				kind = "regression"
 				name = "regression/" + strings.TrimPrefix(name, "executed/regress_")
 			}
-			cr.extras = append(cr.extras, extraResult{Name: name, Kind: kind, OK: ran && !f, Detail: truncate(out, 3000), Ms: time.Since(t0).Milliseconds()})
+			cr.extras = append(cr.extras, extraResult{Name: name, Kind: kind, OK: ran && !f, Detail: detail, Ms: time.Since(t0).Milliseconds()})
 		}
 	}
 	violations := 0
